@@ -50,7 +50,7 @@ pub(crate) fn generate_code(params: CliCodegenParams) -> CliResult<()> {
     options.set_module_visibility(match _module_visibility {
         Some(v) => match v.to_lowercase().as_str() {
             "pub" => Visibility::Public(Pub::default()),
-            "inherited" => Visibility::Inherited,
+            "inherited" | "private" => Visibility::Inherited,
             _ => Visibility::Restricted(VisRestricted {
                 pub_token: Pub::default(),
                 in_token: None,
